@@ -71,6 +71,8 @@ def cases(rng, tier, X):
         body += ['rx 0 %s' % f for f in history(rng, own, mtu)]
         for po in (0, 0xA5):
             out.append(('h%d_p%d' % (k, po), ['poison %d' % po] + body))
+    # small scope, exhaustively: every frame sequence up to length 2 (thorough: 3) over the 23-symbol alphabet of frames.alphabet()
+    out += F.small_scope(2 if tier == 'quick' else 3)
     # universal traffic (every frame type / sender / path / service / boundary value, 1..3 interfaces): this check's predicate on it
     for k in range(60 if tier == 'quick' else 6000):
         out.append(('u%d' % k, F.universal(rng)))
